@@ -258,3 +258,7 @@ func W256Mask(n uint) W256 {
 	m := new(big.Int).Lsh(big.NewInt(1), n)
 	return w256FromBig(m.Sub(m, big.NewInt(1)))
 }
+
+// BlobLens sets the range of encoded lengths the engine's opaque codec model uses for every
+// Marshal/Encode (the engine forks over min..max). Natively a no-op (real CBOR decides).
+func BlobLens(min, max int) {}
